@@ -409,11 +409,14 @@ func genLemma(u *Universe, pi *PkgInfo, lm *Lemma) (res *VerifyResult) {
 	for _, p := range lm.Params {
 		s := vc.decl("l."+p.Name, m.specSort(p.Type))
 		t, _ := basicByName(p.Type)
-		v := Value{K: KScalar, T: t, X: s}
+		v := specParamValue(pi, m, p, s)
 		if t != nil {
 			if it, ok := intTyOf(t); ok {
 				vc.assume(m.inRange(s, it))
 			}
+		}
+		if v.K == KPtr {
+			vc.assume(And(iLe(IntLit(0), s), iLt(s, x.alloc(&st))))
 		}
 		env.vars[p.Name] = v
 		paramSyms = append(paramSyms, s)
@@ -441,8 +444,13 @@ func genLemma(u *Universe, pi *PkgInfo, lm *Lemma) (res *VerifyResult) {
 						h = &Value{K: KScalar, T: t, X: m.lit(bigInt(0), it)}
 					}
 				}
+				if pv := specParamValue(pi, m, p, nilRef); pv.K == KPtr {
+					h = &pv
+				}
 				v := env.evalH(ih[j], h)
-				v.T = t
+				if v.K == KScalar {
+					v.T = t
+				}
 				inst.vars[p.Name] = v
 			}
 			var req, ens []*Term
